@@ -386,6 +386,32 @@ def c18_l1(F, X, rep, bodies):
                     okg = True
             rep.ob("C18-L1", okg, fn, "Ok(stream) only after the input is exhausted", where=loc(b.term(bb_ok)["sp"]),
                    how="dominated by the loop's remaining()-guard exit", detail="" if okg else "decoder can return Ok without consuming the input (early exit)")
+            # what may be left when the decoder stops: less than the shortest record (one type byte + one length byte).
+            # Two or more remaining bytes are a record header (possibly of an empty record) and must be parsed.
+            for c, t in conds:
+                if c.kind != "cmp":
+                    continue
+                for big, lim, flip in ((c.a, c.b, False), (c.b, c.a, True)):
+                    d = lib.def_rvalue(b, big)
+                    if not (d and d[0] == "call" and d[1].mname in ("remaining", "len")):
+                        continue
+                    k = lib.const_int(b, lim) if hasattr(lib, "const_int") else None
+                    if k is None:
+                        ro = lib.root_operand(b, lim)
+                        if ro.get("k") == "const" and ro.get("int") is not None:
+                            k = int(ro["int"])
+                    if k is None:
+                        continue
+                    op = c.op if not flip else {"Lt": "Gt", "Le": "Ge", "Gt": "Lt", "Ge": "Le"}.get(c.op, c.op)
+                    if not t:
+                        op = {"Lt": "Ge", "Le": "Gt", "Gt": "Le", "Ge": "Lt", "Eq": "Ne", "Ne": "Eq"}[op]
+                    # at the Ok exit: remaining `op` k holds
+                    left_max = {"Lt": k - 1, "Le": k, "Eq": k}.get(op)
+                    if left_max is None:
+                        continue
+                    okk = left_max <= 1
+                    rep.ob("C18-L1", okk, fn, "at most one stray byte may be left unparsed", where=loc(b.term(bb_ok)["sp"]), how="stops when remaining() <= %d" % left_max,
+                           detail="" if okk else "the decoder stops with up to %d bytes unparsed: a trailing record with an empty value (two bytes) or a truncated record header is silently dropped instead of parsed / rejected" % left_max)
     # encoder
     enc = None
     for b in bodies:
@@ -448,6 +474,16 @@ def c18_l1(F, X, rep, bodies):
                 and has_field(exprs[2], "value") and not any(x[0] == "call" and x[1].endswith("::len") for x in walk(exprs[2]))
             rep.ob("C18-L1", chain_ok and want, fn, "writes typ, value.len(), value in that order for each record", where=seq[0].loc if seq else loc(b.span),
                    how=" ; ".join(show(e)[:50] for e in exprs), detail="" if chain_ok and want else "encoder writes %s" % [show(e)[:60] for e in exprs])
+            # the output is what the writes appended: the buffer starts empty (a buffer pre-sized from a separately computed
+            # length keeps whatever the writes did not cover)
+            if seq:
+                recv = strip(mm.expand_params(F, X, strip(X.operand(b, seq[0].args[0])), depth=2))
+                made = [x[1] for x in walk(recv) if x[0] == "call" and x[1] in ("bytes::BytesMut::new", "bytes::BytesMut::with_capacity", "std::vec::Vec::new", "std::vec::Vec::with_capacity")]
+                pre = [x[1] for x in walk(recv) if (x[0] == "call" and (x[1] in ("std::vec::from_elem", "bytes::BytesMut::zeroed") or x[1].endswith("::resize") or x[1].endswith("::set_len")))]
+                # also anywhere in the encoder's own body
+                pre += [c.name for c in b.calls if c.name in ("std::vec::from_elem", "bytes::BytesMut::zeroed") or c.name.endswith("Vec::resize") or c.name.endswith("BytesMut::resize") or c.name.endswith("::set_len")]
+                rep.ob("C18-L1", not pre, fn, "the output buffer starts empty and grows by the writes", where=seq[0].loc, how=(made[0] if made else "no pre-sized buffer"),
+                       detail="" if not pre else "the encoder writes into a buffer pre-sized by %s: its length is computed apart from the writer, bytes not covered by the writes stay in the output" % pre[0])
             # no conditional skipping inside the loop body: every put is reached on every iteration
             if some is not None and seq:
                 if nx:
